@@ -435,6 +435,9 @@ class AbstractExcelInPython(ABC):
         date_start, date_end = self._at_midnight(date_start), self._at_midnight(date_end)
         if (not isinstance(date_start, datetime.datetime) or not isinstance(date_end, datetime.datetime)):
             return "#VALUE!"
+        # whole days, months and years between two DATES: a time of day plays no part
+        date_start = datetime.datetime(date_start.year, date_start.month, date_start.day)
+        date_end = datetime.datetime(date_end.year, date_end.month, date_end.day)
         if date_start > date_end:
             return "#NUM!"
         match mode:
